@@ -13,6 +13,8 @@ import ChibiVerif.Lemmas.LinkageDecls
 namespace ChibiVerif.Linkage
 open ChibiVerif.Spec.Linkage
 
+variable [Rules]
+
 /-! ### part 1: the declarations of one object -/
 
 def objEntry (fc : Bool) (x : Name) (D : List ObjDecl) : SymEntry :=
@@ -31,7 +33,7 @@ include hv hd
 
 theorem objValid_static (hx : objInternal D = true → d.isExtern = false) : d.isStatic = objInternal D := by
   simp only [objValid, Bool.and_eq_true] at hv
-  have hl := hv.1.1.2
+  have hl := hv.1.1.1.2
   cases hi : objInternal D
   · simp only [hi, Bool.false_eq_true, if_false, List.all_eq_true, Bool.not_eq_true'] at hl
     exact hl d hd
@@ -42,7 +44,7 @@ theorem objValid_static (hx : objInternal D = true → d.isExtern = false) : d.i
 
 theorem objValid_tls : objTls D = d.isTls := by
   simp only [objValid, Bool.and_eq_true] at hv
-  have ht := hv.1.2
+  have ht := hv.1.1.2
   simp only [Bool.or_eq_true, List.all_eq_true, Bool.not_eq_true'] at ht
   unfold objTls
   cases hdt : d.isTls
@@ -57,7 +59,7 @@ theorem objValid_tls : objTls D = d.isTls := by
 theorem objValid_ty : WTy (tyP D) d.ty ∧ (d.ty.unknownLen = false → d.ty.size = objSize D) ∧
     (d.ty.unknownLen = true → d.init = none) := by
   simp only [objValid, Bool.and_eq_true] at hv
-  have ht := hv.2
+  have ht := hv.1.2
   rw [List.all_eq_true] at ht
   have := ht d hd
   simp only [Bool.and_eq_true, beq_iff_eq, Bool.or_eq_true, Bool.not_eq_true', Option.isNone_iff_eq_none] at this
@@ -107,27 +109,255 @@ theorem emitAlign_good {D : List ObjDecl} (hv : objValid D = true) (ha : ∀ d, 
   have : max 1 (D.headD default).ty.align = (D.headD default).ty.align := by omega
   rw [this]
 
+theorem objValid_agree {D : List ObjDecl} (hv : objValid D = true) : tysAgree D = true := by
+  simp only [objValid, Bool.and_eq_true] at hv
+  exact hv.2
+
+theorem objValid_align_pos {D : List ObjDecl} (hv : objValid D = true) {d : ObjDecl} (hd : d ∈ D) : 1 ≤ d.ty.align := by
+  have := objValid_agree hv
+  simp only [tysAgree, Bool.and_eq_true, List.all_eq_true, decide_eq_true_eq] at this
+  exact this.1 d hd
+
+/-- all declarations leave the array length open: each has the element size the composite type has -/
+theorem size_of_allUnknown {D : List ObjDecl} (hv : objValid D = true) (hallU : ∀ d, d ∈ D → d.ty.unknownLen = true)
+    {d : ObjDecl} (hd : d ∈ D) : d.ty.size = (tyP D).size := by
+  cases hD : D with
+  | nil => rw [hD] at hd; cases hd
+  | cons h0 rest =>
+    have hh0 : h0.ty.unknownLen = true := hallU h0 (by rw [hD]; exact List.mem_cons_self)
+    have hsize : objSize (h0 :: rest) = h0.ty.size := by
+      unfold objSize
+      have : (h0 :: rest).find? (fun d => !d.ty.unknownLen) = none := by
+        rw [List.find?_eq_none]
+        intro y hy
+        have := hallU y (by rw [hD]; exact hy)
+        simp [this]
+      rw [this]
+    have hag := objValid_agree hv
+    rw [hD] at hag hd
+    simp only [tysAgree, Bool.and_eq_true] at hag
+    have hfind : (h0 :: rest).find? (fun d => d.ty.unknownLen) = some h0 := by simp [List.find?, hh0]
+    rw [hfind] at hag
+    have := hag.2
+    rw [List.all_eq_true] at this
+    have hd' := this d hd
+    simp only [Bool.or_eq_true, Bool.not_eq_true', beq_iff_eq] at hd'
+    show d.ty.size = (tyP (h0 :: rest)).size
+    simp only [tyP, hsize]
+    rcases hd' with h | h
+    · rw [hallU d (by rw [hD]; exact hd)] at h; cases h
+    · exact h
+
+/-! ### part 1b: `is_static` of an `extern` declaration that inherits (repaired `global_variable`) -/
+
+theorem objDecls_cons_obj (y : Name) (s e t : Bool) (ty : ObjTy) (init : Option (List InitItem)) (ds : List Decl) (x : Name) :
+    objDecls (.obj y s e t ty init :: ds) x = if y = x then ⟨s, e, t, ty, init⟩ :: objDecls ds x else objDecls ds x := by
+  simp only [objDecls, List.filterMap_cons]
+  by_cases h : y = x <;> simp [h]
+
+theorem objDecls_cons_func (f : Name) (n : Nat) (s e i : Bool) (b : Option (List BodyItem)) (ds : List Decl) (x : Name) :
+    objDecls (.func f n s e i b :: ds) x = objDecls ds x := by
+  simp [objDecls]
+
+theorem objDecls_append (a b : List Decl) (x : Name) : objDecls (a ++ b) x = objDecls a x ++ objDecls b x := by
+  simp [objDecls, List.filterMap_append]
+
+theorem envBody_false (x : Name) : ∀ (b : List BodyItem) (env : SEnv), env x = false → envBody env b x = false
+  | [], _, h => h
+  | i :: r, env, h => by
+    simp only [envBody]
+    apply envBody_false x r
+    cases i with
+    | externObj y tls ty =>
+      simp only [envItem, envSet, extStatic]
+      by_cases hy : x = y
+      · subst hy; simp [h]
+      · simp [hy, h]
+    | ref _ => exact h
+    | staticLocal _ _ _ => exact h
+    | str _ => exact h
+
+theorem envBody_true (hA : Rules.externInherits = true) (x : Name) : ∀ (b : List BodyItem) (env : SEnv), env x = true → envBody env b x = true
+  | [], _, h => h
+  | i :: r, env, h => by
+    simp only [envBody]
+    apply envBody_true hA x r
+    cases i with
+    | externObj y tls ty =>
+      simp only [envItem, envSet, extStatic]
+      by_cases hy : x = y
+      · subst hy; simp [h, hA]
+      · simp [hy, h]
+    | ref _ => exact h
+    | staticLocal _ _ _ => exact h
+    | str _ => exact h
+
+/-- no declaration of `x` says `static`: nothing to inherit -/
+theorem envAfter_false (x : Name) : ∀ (pre : List Decl) (env : SEnv), env x = false →
+    (∀ d, d ∈ objDecls pre x → d.isStatic = false) → envAfter env pre x = false
+  | [], _, h, _ => h
+  | d :: r, env, h, hall => by
+    simp only [envAfter, List.foldl_cons]
+    cases d with
+    | func f n s e i body =>
+      rw [objDecls_cons_func] at hall
+      apply envAfter_false x r _ _ hall
+      cases body with
+      | none => exact h
+      | some b => exact envBody_false x b env h
+    | obj y s e t ty init =>
+      rw [objDecls_cons_obj] at hall
+      by_cases hy : y = x
+      · subst hy
+        simp only [if_true] at hall
+        apply envAfter_false y r _ _ (fun d hd => hall d (List.mem_cons_of_mem _ hd))
+        have hs : s = false := hall ⟨s, e, t, ty, init⟩ List.mem_cons_self
+        simp [envDecl, envSet, varStatic, hs, h]
+      · simp only [hy, if_false] at hall
+        apply envAfter_false x r _ _ hall
+        have : ¬ x = y := fun e' => hy e'.symm
+        simp [envDecl, envSet, this, h]
+
+/-- the object has internal linkage and every declaration so far says `static` or `extern`: the visible declaration is static -/
+theorem envAfter_true (hA : Rules.externInherits = true) (x : Name) : ∀ (pre : List Decl) (env : SEnv),
+    (env x = true ∨ ∃ d0 r, objDecls pre x = d0 :: r ∧ d0.isStatic = true) →
+    (∀ d, d ∈ objDecls pre x → d.isStatic = true ∨ d.isExtern = true) → envAfter env pre x = true
+  | [], env, h, _ => by
+    rcases h with h | ⟨d0, r, h, _⟩
+    · exact h
+    · simp [objDecls] at h
+  | d :: r, env, h, hall => by
+    simp only [envAfter, List.foldl_cons]
+    cases d with
+    | func f n s e i body =>
+      rw [objDecls_cons_func] at hall h
+      apply envAfter_true hA x r _ _ hall
+      rcases h with h | h
+      · left
+        cases body with
+        | none => exact h
+        | some b => exact envBody_true hA x b env h
+      · exact Or.inr h
+    | obj y s e t ty init =>
+      rw [objDecls_cons_obj] at hall h
+      by_cases hy : y = x
+      · subst hy
+        simp only [if_true] at hall h
+        apply envAfter_true hA y r _ _ (fun d hd => hall d (List.mem_cons_of_mem _ hd))
+        left
+        have hse := hall ⟨s, e, t, ty, init⟩ List.mem_cons_self
+        simp only at hse
+        rcases h with h | ⟨d0, r0, h, hs0⟩
+        · rcases hse with hs | he
+          · simp [envDecl, envSet, varStatic, hs]
+          · simp [envDecl, envSet, varStatic, he, h, hA]
+        · simp only [List.cons.injEq] at h
+          have hs : s = true := by rw [← h.1] at hs0; exact hs0
+          simp [envDecl, envSet, varStatic, hs]
+      · simp only [hy, if_false] at hall h
+        apply envAfter_true hA x r _ _ hall
+        have hxy : ¬ x = y := fun e' => hy e'.symm
+        rcases h with h | h
+        · left; simp [envDecl, envSet, hxy, h]
+        · exact Or.inr h
+
+/-- **`var->is_static` of a file-scope declaration** of a valid object is the linkage C11 gives the object, provided the
+    declaration is not an `extern` declaration of an internal object - or `extern` declarations inherit (repaired code) -/
+theorem varStatic_eq {ds pre post : List Decl} {x : Name} {s e t : Bool} {ty : ObjTy} {init : Option (List InitItem)}
+    (hds : ds = pre ++ Decl.obj x s e t ty init :: post) (hv : objValid (objDecls ds x) = true)
+    (hx : Rules.externInherits = false → objInternal (objDecls ds x) = true → e = false) :
+    varStatic (envAfter env0 pre) x s e = objInternal (objDecls ds x) := by
+  have hD : objDecls ds x = objDecls pre x ++ ⟨s, e, t, ty, init⟩ :: objDecls post x := by
+    rw [hds, objDecls_append, objDecls_cons_obj]; simp
+  have hmem : (⟨s, e, t, ty, init⟩ : ObjDecl) ∈ objDecls ds x := by rw [hD]; simp
+  cases hA : Rules.externInherits
+  · have := objValid_static hv hmem (hx hA)
+    simp only at this
+    simp [varStatic, hA, this]
+  · have hv' := hv
+    simp only [objValid, Bool.and_eq_true] at hv'
+    have hl := hv'.1.1.1.2
+    cases hi : objInternal (objDecls ds x)
+    · simp only [hi, Bool.false_eq_true, if_false, List.all_eq_true, Bool.not_eq_true'] at hl
+      have hs : s = false := hl _ hmem
+      have henv : envAfter env0 pre x = false :=
+        envAfter_false x pre env0 rfl (fun d hd => hl d (by rw [hD]; exact List.mem_append_left _ hd))
+      simp [varStatic, hs, henv]
+    · simp only [hi, if_true, List.all_eq_true, Bool.or_eq_true] at hl
+      cases hs : s
+      · -- not `static`: an `extern` declaration behind the first one
+        have he : e = true := by
+          rcases hl _ hmem with h | h
+          · simp only at h; rw [hs] at h; cases h
+          · exact h
+        have hpre : ∃ d0 r, objDecls pre x = d0 :: r ∧ d0.isStatic = true := by
+          cases hp : objDecls pre x with
+          | nil =>
+            rw [hD, hp] at hi
+            simp only [List.nil_append, objInternal] at hi
+            rw [hs] at hi; cases hi
+          | cons d0 r =>
+            rw [hD, hp] at hi
+            exact ⟨d0, r, rfl, by simpa [objInternal] using hi⟩
+        have henv : envAfter env0 pre x = true :=
+          envAfter_true hA x pre env0 (Or.inr hpre) (fun d hd => hl d (by rw [hD]; exact List.mem_append_left _ hd))
+        simp [varStatic, he, henv, hA]
+      · simp [varStatic]
+
 /-! ### part 2: the objects of the result -/
+
+theorem mem_blockExterns {y : Name} {ty : ObjTy} : (y, ty) ∈ blockExterns ds ↔
+    ∃ f n s e i b tls, Decl.func f n s e i (some b) ∈ ds ∧ BodyItem.externObj y tls ty ∈ b := by
+  unfold blockExterns
+  rw [List.mem_flatMap]
+  constructor
+  · rintro ⟨d, hd, hm⟩
+    cases d with
+    | obj => simp at hm
+    | func f n s e i body =>
+      cases body with
+      | none => simp at hm
+      | some b =>
+        rw [List.mem_filterMap] at hm
+        obtain ⟨it, hit, hh⟩ := hm
+        cases it with
+        | externObj z tls ty' =>
+          simp only [Option.some.injEq, Prod.mk.injEq] at hh
+          obtain ⟨rfl, rfl⟩ := hh
+          exact ⟨f, n, s, e, i, b, tls, hd, hit⟩
+        | ref => cases hh
+        | staticLocal => cases hh
+        | str => cases hh
+  · rintro ⟨f, n, s, e, i, b, tls, hd, hb⟩
+    exact ⟨_, hd, List.mem_filterMap.mpr ⟨_, hb, rfl⟩⟩
 
 /-- what the theorem assumes about the unit, per object name -/
 structure ObjOK (ds : List Decl) (x : Name) : Prop where
   valid : objValid (objDecls ds x) = true
-  agree : tysAgree (objDecls ds x) = true
   noFn : x ∉ fnNames ds
-  noExternInit : ¬ (objInternal (objDecls ds x) = true ∧ (objDecls ds x).any (fun d => d.isExtern && d.init.isSome) = true)
-  noComposite : ¬ (objHasInit (objDecls ds x) = false ∧ objDefined (objDecls ds x) = true ∧
-    ((objDecls ds x).filter (fun d => !d.isExtern)).all (fun d => d.ty.unknownLen) = true ∧
-    (objDecls ds x).any (fun e => !e.ty.unknownLen) = true)
+  blockAgree : ∀ ty, (x, ty) ∈ blockExterns ds → ty.unknownLen = false → ty.size = objSize (objDecls ds x)
+  noExternInit : Rules.externInherits = true ∨
+    ¬ (objInternal (objDecls ds x) = true ∧ (objDecls ds x).any (fun d => d.isExtern && d.init.isSome) = true)
+  noComposite : Rules.compositeFromDecls = true ∨
+    ¬ (objHasInit (objDecls ds x) = false ∧ objDefined (objDecls ds x) = true ∧
+      ((objDecls ds x).filter (fun d => !d.isExtern)).all (fun d => d.ty.unknownLen) = true ∧
+      (objDecls ds x).any (fun e => !e.ty.unknownLen) = true)
 
 section
 variable {ds : List Decl} {st : PState} {gs1 gs : List Obj} (p : Parsed ds st gs1 gs) {x : Name} (ok : ObjOK ds x)
 include p ok
 
 omit p in
-theorem ObjOK.align_pos {d : ObjDecl} (hd : d ∈ objDecls ds x) : 1 ≤ d.ty.align := by
-  have := ok.agree
-  simp only [tysAgree, Bool.and_eq_true, List.all_eq_true, decide_eq_true_eq] at this
-  exact this.1 d hd
+theorem ObjOK.align_pos {d : ObjDecl} (hd : d ∈ objDecls ds x) : 1 ≤ d.ty.align := objValid_align_pos ok.valid hd
+
+omit ok in
+/-- a named data object of the list the root loop left -/
+theorem named_src {a : Obj} (ha : a ∈ gs1) (hf : a.isFunction = false) (hs : a.sym = .named x) :
+    (∃ s e t ty init k pre post, ds = pre ++ Decl.obj x s e t ty init :: post ∧
+      a = varObj k x (varStatic (envAfter env0 pre) x s e) e t ty init) ∨
+    (∃ f n s e i b tls ty stc, Decl.func f n s e i (some b) ∈ ds ∧ BodyItem.externObj x tls ty ∈ b ∧ a = externO x tls ty stc) := by
+  have ha' : a ∈ allNews 0 env0 ds := by rw [← p.data1]; exact mem_dataOf.mpr ⟨ha, hf⟩
+  exact (allNews_kind ds 0 a ha').named hs
 
 /-- a non-tentative definition of `x` exists in the list iff some declaration of `x` has an initializer -/
 theorem realDef_iff : gs1.any (realDefOf (.named x)) = objHasInit (objDecls ds x) := by
@@ -137,14 +367,13 @@ theorem realDef_iff : gs1.any (realDefOf (.named x)) = objHasInit (objDecls ds x
     simp only [realDefOf, Bool.and_eq_true, beq_iff_eq, Bool.not_eq_true'] at hr
     obtain ⟨⟨hdef, hnt⟩, hs⟩ := hr
     cases hf : o.isFunction
-    · have ha : o ∈ allNews 0 ds := by rw [← p.data1]; exact mem_dataOf.mpr ⟨ho, hf⟩
-      rcases (allNews_kind ds 0 o ha).named hs with ⟨s, e, t, ty, init, k, hd, rfl⟩ | ⟨f, n, s, e, i, b, tls, ty, _, _, rfl⟩
+    · rcases named_src p ho hf hs with ⟨s, e, t, ty, init, k, pre, post, hd, rfl⟩ | ⟨f, n, s, e, i, b, tls, ty, stc, _, _, rfl⟩
       · rw [varObj_isDefinition] at hdef
         rw [varObj_isTentative] at hnt
         have hinit : init.isSome = true := by cases init <;> simp_all
         unfold objHasInit
         rw [List.any_eq_true]
-        exact ⟨⟨s, e, t, ty, init⟩, mem_objDecls.mpr hd, hinit⟩
+        exact ⟨⟨s, e, t, ty, init⟩, mem_objDecls.mpr (mem_of_split hd), hinit⟩
       · cases hdef
     · exfalso
       have := p.fn_declared ho hf hs
@@ -153,141 +382,240 @@ theorem realDef_iff : gs1.any (realDefOf (.named x)) = objHasInit (objDecls ds x
     unfold objHasInit at h
     rw [List.any_eq_true] at h
     obtain ⟨d, hd, hi⟩ := h
-    obtain ⟨k, hk⟩ := var_mem_allNews ds 0 (mem_objDecls.mp hd)
+    obtain ⟨k, stc, hk⟩ := var_mem_allNews ds 0 env0 (mem_objDecls.mp hd)
     rw [← p.data1] at hk
     refine ⟨_, (mem_dataOf.mp hk).1, ?_⟩
     simp only [realDefOf, varObj_isDefinition, varObj_isTentative, varObj_sym, hi]
     cases hdi : d.init <;> simp_all
 
+theorem realDef_iff2 : (preScan gs1).any (realDefOf (.named x)) = objHasInit (objDecls ds x) := by
+  rw [(preScan_tyRel gs1).any (tyBlind_realDefOf _)]
+  exact realDef_iff p ok
+
 omit ok in
 /-- a tentative definition of `x` in the list comes from a declaration without `extern` and without initializer -/
 theorem tent_decl {a : Obj} (ha : a ∈ gs1) (ht : isTentOf (.named x) a = true) :
     ∃ d, d ∈ objDecls ds x ∧ d.isExtern = false ∧ d.init = none ∧ a.ty = d.ty ∧ a.isStatic = d.isStatic ∧
-      a.isTls = d.isTls ∧ a.isFunction = false ∧ a.isDefinition = true ∧ a.hasInit = false := by
+      a.isTls = d.isTls ∧ a.isFunction = false ∧ a.isDefinition = true ∧ a.hasInit = false ∧ a.owner = none := by
   have htt := isTentOf_tent ht
   have hs := isTentOf_sym ht
   have hf : a.isFunction = false := by
     cases hf : a.isFunction
     · rfl
     · rw [p.fnNotTent1 a ha hf] at htt; cases htt
-  have ha' : a ∈ allNews 0 ds := by rw [← p.data1]; exact mem_dataOf.mpr ⟨ha, hf⟩
-  rcases (allNews_kind ds 0 a ha').named hs with ⟨s, e, t, ty, init, k, hd, rfl⟩ | ⟨f, n, s, e, i, b, tls, ty, _, _, rfl⟩
+  rcases named_src p ha hf hs with ⟨s, e, t, ty, init, k, pre, post, hd, rfl⟩ | ⟨f, n, s, e, i, b, tls, ty, stc, _, _, rfl⟩
   · rw [varObj_isTentative] at htt
     simp only [Bool.and_eq_true, Bool.not_eq_true', Option.isNone_iff_eq_none] at htt
     obtain ⟨rfl, rfl⟩ := htt
-    exact ⟨⟨s, false, t, ty, none⟩, mem_objDecls.mpr hd, rfl, rfl, rfl, rfl, rfl, rfl, rfl, rfl⟩
+    refine ⟨⟨s, false, t, ty, none⟩, mem_objDecls.mpr (mem_of_split hd), rfl, rfl, rfl, ?_, rfl, rfl, rfl, rfl, rfl⟩
+    simp [varObj, varStatic]
   · cases htt
 
-/-- the invariant of the walk holds for the tentative definitions of `x` -/
-theorem chain_of_valid (hno : objHasInit (objDecls ds x) = false) : ChainOK (tyP (objDecls ds x)) (tysOf (.named x) gs1) := by
-  have src : ∀ t, t ∈ tysOf (.named x) gs1 → ∃ d, d ∈ objDecls ds x ∧ d.ty = t := by
+omit ok in
+/-- an array object of known length named `x` in the list the root loop left comes from a declaration of `x` that states
+    the length: at file scope or in a block -/
+theorem known_src {k : Obj} (hk : k ∈ gs1) (hka : knownArr (.named x) k = true) :
+    (∃ d, d ∈ objDecls ds x ∧ d.ty = k.ty) ∨ (x, k.ty) ∈ blockExterns ds := by
+  simp only [knownArr, Bool.and_eq_true, Bool.not_eq_true', beq_iff_eq] at hka
+  obtain ⟨⟨⟨hf, _⟩, _⟩, hs⟩ := hka
+  rcases named_src p hk hf hs with ⟨s, e, t, ty, init, j, pre, post, hd, rfl⟩ | ⟨f, n, s, e, i, b, tls, ty, stc, hd, hb, rfl⟩
+  · exact Or.inl ⟨⟨s, e, t, ty, init⟩, mem_objDecls.mpr (mem_of_split hd), (varObj_ty _ _ _ _ _ _ _).symm⟩
+  · exact Or.inr (mem_blockExterns.mpr ⟨f, n, s, e, i, b, tls, hd, hb⟩)
+
+/-- the size a declaration that states the array length gives is the size of the composite type -/
+theorem known_size {k : Obj} (hk : k ∈ gs1) (hka : knownArr (.named x) k = true) : k.ty.size = objSize (objDecls ds x) := by
+  have hku : k.ty.unknownLen = false := by
+    simp only [knownArr, Bool.and_eq_true, Bool.not_eq_true'] at hka
+    exact hka.1.2
+  rcases known_src p hk hka with ⟨d, hd, hty⟩ | hb
+  · rw [← hty]
+    exact (objValid_ty ok.valid hd).2.1 (by rw [hty]; exact hku)
+  · exact ok.blockAgree _ hb hku
+
+/-- the invariant of the walk holds for the tentative definitions of `x` after the pass in front of `scan_globals` -/
+theorem chain_of_valid (hno : objHasInit (objDecls ds x) = false) :
+    ChainOK (tyP (objDecls ds x)) (tysOf (.named x) (preScan gs1)) := by
+  -- a tentative definition of `x` in `preScan gs1` and where it comes from
+  have src : ∀ t, t ∈ tysOf (.named x) (preScan gs1) →
+      ∃ a d, a ∈ gs1 ∧ isTentOf (.named x) a = true ∧ d ∈ objDecls ds x ∧ d.isExtern = false ∧ a.ty = d.ty ∧
+        t = (preOne gs1 a).ty := by
     intro t ht
     simp only [tysOf, List.mem_map, List.mem_filter] at ht
-    obtain ⟨a, ⟨ha, hta⟩, rfl⟩ := ht
-    obtain ⟨d, hd, _, _, hty, _⟩ := tent_decl p ha hta
-    exact ⟨d, hd, hty.symm⟩
-  apply chain_initial
-  · intro t ht
-    obtain ⟨d, hd, rfl⟩ := src t ht
-    exact ⟨(objValid_ty ok.valid hd).1, (objValid_ty ok.valid hd).2.1⟩
-  · by_cases hk : ∃ d, d ∈ objDecls ds x ∧ d.isExtern = false ∧ d.ty.unknownLen = false
-    · -- a tentative definition gives the length
-      left
-      obtain ⟨d, hd, he, hu⟩ := hk
-      have hin : d.init = none := by
-        unfold objHasInit at hno
-        rw [List.any_eq_false] at hno
-        have := hno d hd
-        cases hdi : d.init <;> simp_all
-      obtain ⟨k, hk⟩ := var_mem_allNews ds 0 (mem_objDecls.mp hd)
-      rw [← p.data1] at hk
-      refine ⟨d.ty, ?_, hu⟩
-      simp only [tysOf, List.mem_map, List.mem_filter]
-      refine ⟨_, ⟨(mem_dataOf.mp hk).1, ?_⟩, varObj_ty _ _ _ _ _ _ _⟩
-      simp [isTentOf, varObj_isTentative, varObj_sym, hin, he]
-    · -- no declaration at all gives the length: all element sizes agree
-      right
-      have hdef : ∀ t, t ∈ tysOf (.named x) gs1 → objDefined (objDecls ds x) = true := by
+    obtain ⟨a2, ⟨ha2, hta2⟩, rfl⟩ := ht
+    obtain ⟨a, ha, rfl⟩ := mem_preScan.mp ha2
+    have hta : isTentOf (.named x) a = true := by
+      obtain ⟨T, hT⟩ := preOne_same gs1 a
+      rw [hT] at hta2; exact hta2
+    obtain ⟨d, hd, he, _, hty, _⟩ := tent_decl p ha hta
+    exact ⟨a, d, ha, hta, hd, he, hty, rfl⟩
+  have wty : ∀ d, d ∈ objDecls ds x → WTy (tyP (objDecls ds x)) d.ty ∧ (d.ty.unknownLen = false → d.ty.size = objSize (objDecls ds x)) :=
+    fun d hd => ⟨(objValid_ty ok.valid hd).1, (objValid_ty ok.valid hd).2.1⟩
+  cases hC : Rules.compositeFromDecls
+  · -- the code as it was: `preScan` does nothing
+    have hoff : ∀ a, preOne gs1 a = a := preOne_off hC gs1
+    apply chain_initial
+    · intro t ht
+      obtain ⟨a, d, _, _, hd, _, hty, rfl⟩ := src t ht
+      rw [hoff, hty]; exact wty d hd
+    · by_cases hk : ∃ d, d ∈ objDecls ds x ∧ d.isExtern = false ∧ d.ty.unknownLen = false
+      · -- a tentative definition gives the length
+        left
+        obtain ⟨d, hd, he, hu⟩ := hk
+        have hin : d.init = none := by
+          unfold objHasInit at hno
+          rw [List.any_eq_false] at hno
+          have := hno d hd
+          cases hdi : d.init <;> simp_all
+        obtain ⟨k, stc, hk⟩ := var_mem_allNews ds 0 env0 (mem_objDecls.mp hd)
+        rw [← p.data1] at hk
+        refine ⟨d.ty, ?_, hu⟩
+        simp only [tysOf, List.mem_map, List.mem_filter]
+        refine ⟨_, ⟨mem_preScan.mpr ⟨_, (mem_dataOf.mp hk).1, rfl⟩, ?_⟩, ?_⟩
+        · rw [hoff]; simp [isTentOf, varObj_isTentative, varObj_sym, hin, he]
+        · rw [hoff]; exact varObj_ty _ _ _ _ _ _ _
+      · -- no declaration at all gives the length: all element sizes agree
+        right
         intro t ht
-        simp only [tysOf, List.mem_map, List.mem_filter] at ht
-        obtain ⟨a, ⟨ha, hta⟩, _⟩ := ht
-        obtain ⟨d, hd, he, _⟩ := tent_decl p ha hta
-        unfold objDefined
-        rw [List.any_eq_true]
-        exact ⟨d, hd, by simp [he]⟩
-      intro t ht
-      have hallU : ∀ d, d ∈ objDecls ds x → d.ty.unknownLen = true := by
-        intro d hd
-        cases hu : d.ty.unknownLen
-        · exfalso
-          apply ok.noComposite
-          refine ⟨hno, hdef t ht, ?_, ?_⟩
-          · rw [List.all_eq_true]
-            intro y hy
-            rw [List.mem_filter] at hy
-            cases hyu : y.ty.unknownLen
-            · exact absurd ⟨y, hy.1, by simpa using hy.2, hyu⟩ hk
+        obtain ⟨a, d, ha, hta, hd, he, hty, rfl⟩ := src t ht
+        rw [hoff, hty]
+        have hdefd : objDefined (objDecls ds x) = true := by
+          unfold objDefined
+          rw [List.any_eq_true]
+          exact ⟨d, hd, by simp [he]⟩
+        have hnoC : ¬ (objHasInit (objDecls ds x) = false ∧ objDefined (objDecls ds x) = true ∧
+            ((objDecls ds x).filter (fun d => !d.isExtern)).all (fun d => d.ty.unknownLen) = true ∧
+            (objDecls ds x).any (fun e => !e.ty.unknownLen) = true) := by
+          rcases ok.noComposite with h | h
+          · rw [hC] at h; cases h
+          · exact h
+        have hallU : ∀ d, d ∈ objDecls ds x → d.ty.unknownLen = true := by
+          intro d' hd'
+          cases hu : d'.ty.unknownLen
+          · exfalso
+            apply hnoC
+            refine ⟨hno, hdefd, ?_, ?_⟩
+            · rw [List.all_eq_true]
+              intro y hy
+              rw [List.mem_filter] at hy
+              cases hyu : y.ty.unknownLen
+              · exact absurd ⟨y, hy.1, by simpa using hy.2, hyu⟩ hk
+              · rfl
+            · rw [List.any_eq_true]
+              exact ⟨d', hd', by simp [hu]⟩
+          · rfl
+        exact size_of_allUnknown ok.valid hallU hd
+  · -- the repaired code: every array of unknown length has taken the length some declaration states
+    have hon : ∀ a, preOne gs1 a = completeOne gs1 a := fun a => by simp [preOne, hC]
+    cases hK : gs1.find? (knownArr (.named x)) with
+    | some k =>
+      have hkm : k ∈ gs1 := List.mem_of_find?_eq_some hK
+      have hkp := List.find?_some hK
+      have hksz := known_size p ok hkm hkp
+      -- every tentative definition of `x` now has the composite type
+      have good : ∀ t, t ∈ tysOf (.named x) (preScan gs1) → GoodTy (tyP (objDecls ds x)) t := by
+        intro t ht
+        obtain ⟨a, d, ha, hta, hd, he, hty, rfl⟩ := src t ht
+        have hsa : a.sym = .named x := isTentOf_sym hta
+        obtain ⟨hw, hsz⟩ := wty d hd
+        rw [hon]
+        obtain ⟨_, _, _, _, _, _, _, hfa, _⟩ := tent_decl p ha hta
+        cases hu : a.ty.unknownLen
+        · rw [completeOne_known gs1 hu, hty]
+          rw [hty] at hu
+          exact ⟨hw, hu, hsz hu⟩
+        · have harr : a.ty.isArray = true := by rw [hty] at hu ⊢; exact hw.2.2 hu
+          rw [completeOne_hit gs1 hfa harr hu (by rw [hsa]; exact hK)]
+          show GoodTy _ { a.ty with size := k.ty.size, unknownLen := false }
+          rw [hty]
+          exact ⟨⟨hw.1, hw.2.1, fun h => by cases h⟩, rfl, hksz⟩
+      refine ⟨fun t ht => (good t ht).1, Or.inl (fun t ht => ?_)⟩
+      have hg := good t ht
+      rw [complete_of_known hg.2.1]; exact hg
+    | none =>
+      -- nothing states the length: `preScan` leaves the objects of `x` alone
+      have hid : ∀ a, a.sym = .named x → preOne gs1 a = a := by
+        intro a hsa
+        rw [hon]
+        exact completeOne_miss gs1 (by rw [hsa]; exact hK)
+      have hnone := List.find?_eq_none.mp hK
+      apply chain_initial
+      · intro t ht
+        obtain ⟨a, d, _, hta, hd, _, hty, rfl⟩ := src t ht
+        rw [hid a (isTentOf_sym hta), hty]; exact wty d hd
+      · by_cases hk : ∃ d, d ∈ objDecls ds x ∧ d.isExtern = false ∧ d.ty.unknownLen = false
+        · left
+          obtain ⟨d, hd, he, hu⟩ := hk
+          have hin : d.init = none := by
+            unfold objHasInit at hno
+            rw [List.any_eq_false] at hno
+            have := hno d hd
+            cases hdi : d.init <;> simp_all
+          obtain ⟨k, stc, hk⟩ := var_mem_allNews ds 0 env0 (mem_objDecls.mp hd)
+          rw [← p.data1] at hk
+          refine ⟨d.ty, ?_, hu⟩
+          simp only [tysOf, List.mem_map, List.mem_filter]
+          refine ⟨_, ⟨mem_preScan.mpr ⟨_, (mem_dataOf.mp hk).1, rfl⟩, ?_⟩, ?_⟩
+          · rw [hid _ (varObj_sym _ _ _ _ _ _ _)]; simp [isTentOf, varObj_isTentative, varObj_sym, hin, he]
+          · rw [hid _ (varObj_sym _ _ _ _ _ _ _)]; exact varObj_ty _ _ _ _ _ _ _
+        · right
+          intro t ht
+          obtain ⟨a, d, ha, hta, hd, he, hty, rfl⟩ := src t ht
+          rw [hid a (isTentOf_sym hta), hty]
+          -- every declaration leaves the length open: one that states it would be a `knownArr`
+          have hallU : ∀ d', d' ∈ objDecls ds x → d'.ty.unknownLen = true := by
+            intro d' hd'
+            cases hu : d'.ty.unknownLen
+            · exfalso
+              cases harr : d'.ty.isArray
+              · -- not an array: then no declaration is one, and all state their size - also the tentative `d`
+                have hdarr : d.ty.isArray = false := by
+                  rw [(objValid_ty ok.valid hd).1.2.1, ← (objValid_ty ok.valid hd').1.2.1]; exact harr
+                have hdu : d.ty.unknownLen = false := by
+                  cases h : d.ty.unknownLen
+                  · rfl
+                  · have := (objValid_ty ok.valid hd).1.2.2 h
+                    rw [hdarr] at this; cases this
+                exact hk ⟨d, hd, he, hdu⟩
+              · obtain ⟨j, stc, hj⟩ := var_mem_allNews ds 0 env0 (mem_objDecls.mp hd')
+                rw [← p.data1] at hj
+                have := hnone _ (mem_dataOf.mp hj).1
+                simp [knownArr, varObj_isFunction, varObj_ty, varObj_sym, harr, hu] at this
             · rfl
-          · rw [List.any_eq_true]
-            exact ⟨d, hd, by simp [hu]⟩
-        · rfl
-      obtain ⟨d, hd, rfl⟩ := src t ht
-      -- objSize D is the head's size; tysAgree: every size is that of the first open declaration, the head
-      cases hD : objDecls ds x with
-      | nil => rw [hD] at hd; cases hd
-      | cons h0 rest =>
-        have hh0 : h0.ty.unknownLen = true := hallU h0 (by rw [hD]; exact List.mem_cons_self)
-        have hsize : objSize (h0 :: rest) = h0.ty.size := by
-          unfold objSize
-          have : (h0 :: rest).find? (fun d => !d.ty.unknownLen) = none := by
-            rw [List.find?_eq_none]
-            intro y hy
-            have := hallU y (by rw [hD]; exact hy)
-            simp [this]
-          rw [this]
-        have hag := ok.agree
-        rw [hD] at hag hd
-        simp only [tysAgree, Bool.and_eq_true] at hag
-        have hfind : (h0 :: rest).find? (fun d => d.ty.unknownLen) = some h0 := by simp [List.find?, hh0]
-        rw [hfind] at hag
-        have := hag.2
-        rw [List.all_eq_true] at this
-        have hd' := this d hd
-        simp only [Bool.or_eq_true, Bool.not_eq_true', beq_iff_eq] at hd'
-        show d.ty.size = (tyP (h0 :: rest)).size
-        simp only [tyP, hsize]
-        rcases hd' with h | h
-        · rw [hallU d (by rw [hD]; exact hd)] at h; cases h
-        · exact h
+          exact size_of_allUnknown ok.valid hallU hd
 
 /-- **the entry of a defined data object.**  Whatever defined data object named `x` the result contains,
     `emit_data` prints for it (and `as` records) exactly the Spec's entry for `x`. -/
 theorem data_entry (fc : Bool) {o : Obj} (ho : o ∈ gs) (hf : o.isFunction = false) (hdef : o.isDefinition = true)
     (hs : o.sym = .named x) :
-    objDefined (objDecls ds x) = true ∧ (emitDataVar fc o).map asmView = some (objEntry fc x (objDecls ds x)) := by
+    objDefined (objDecls ds x) = true ∧ o.owner = none ∧ (emitDataVar fc o).map asmView = some (objEntry fc x (objDecls ds x)) := by
   cases ht : o.isTentative
   · -- a definition with initializer
-    have ha := p.data_nt_of_mem ho hf ht
-    rcases (allNews_kind ds 0 o ha).named hs with ⟨s, e, t, ty, init, k, hd, rfl⟩ | ⟨f, n, s, e, i, b, tls, ty, _, _, rfl⟩
-    · rw [varObj_isDefinition] at hdef
-      rw [varObj_isTentative] at ht
+    obtain ⟨a, ha, rfl⟩ := p.data_nt_of_mem ho hf ht
+    obtain ⟨T0, hT0⟩ := preOne_same gs1 a
+    have hsa : a.sym = .named x := by rw [hT0] at hs; exact hs
+    have hda : a.isDefinition = true := by rw [hT0] at hdef; exact hdef
+    have hta : a.isTentative = false := by rw [hT0] at ht; exact ht
+    rcases (allNews_kind ds 0 a ha).named hsa with ⟨s, e, t, ty, init, k, pre, post, hd, rfl⟩ | ⟨f, n, s, e, i, b, tls, ty, stc, _, _, rfl⟩
+    · rw [varObj_isDefinition] at hda
+      rw [varObj_isTentative] at hta
       cases init with
       | none => simp_all
       | some items =>
-        have hmem : (⟨s, e, t, ty, some items⟩ : ObjDecl) ∈ objDecls ds x := mem_objDecls.mpr hd
+        have hmem : (⟨s, e, t, ty, some items⟩ : ObjDecl) ∈ objDecls ds x := mem_objDecls.mpr (mem_of_split hd)
         have hD : objDefined (objDecls ds x) = true := by
           unfold objDefined; rw [List.any_eq_true]; exact ⟨_, hmem, rfl⟩
         have hI : objHasInit (objDecls ds x) = true := by
           unfold objHasInit; rw [List.any_eq_true]; exact ⟨_, hmem, rfl⟩
-        refine ⟨hD, ?_⟩
-        have hstat := objValid_static ok.valid hmem (fun hi => by
+        have hstat := varStatic_eq hd ok.valid (fun hA hi => by
           cases he : e
           · rfl
           · exfalso
-            apply ok.noExternInit
-            refine ⟨hi, ?_⟩
-            rw [List.any_eq_true]
-            exact ⟨_, hmem, by simp [he]⟩)
+            rcases ok.noExternInit with h | h
+            · rw [hA] at h; cases h
+            · apply h
+              refine ⟨hi, ?_⟩
+              rw [List.any_eq_true]
+              exact ⟨_, hmem, by simp [he]⟩)
         have htls := objValid_tls ok.valid hmem
         obtain ⟨hw, hk, hu⟩ := objValid_ty ok.valid hmem
         have hknown : ty.unknownLen = false := by
@@ -297,25 +625,32 @@ theorem data_entry (fc : Bool) {o : Obj} (ho : o ∈ gs) (hf : o.isFunction = fa
         have hgood : GoodTy (tyP (objDecls ds x)) ty := ⟨hw, hknown, hk hknown⟩
         obtain ⟨hal, _⟩ := emitAlign_good ok.valid (fun d hd => ok.align_pos hd)
           (by intro h0; rw [h0] at hmem; cases hmem) hgood
-        simp only at hstat htls
+        rw [preOne_known gs1 (by rw [varObj_ty]; exact hknown)]
+        refine ⟨hD, rfl, ?_⟩
+        simp only at htls
         simp only [objEntry, objKind, hI, htls, ← hstat, ← hal, ← hk hknown]
-        cases s <;> cases t <;> simp [emitDataVar, varObj, asmView, bindingOf]
-    · cases hdef
+        generalize varStatic (envAfter env0 pre) x s e = sst
+        cases sst <;> cases t <;> simp [emitDataVar, varObj, asmView, bindingOf]
+    · cases hda
   · -- a tentative definition
-    obtain ⟨a, ha, hkept, hsame⟩ := p.data_of_mem ho hf
+    obtain ⟨a, ha, hkept, hsame2, hsame⟩ := p.data_of_mem ho hf
     obtain ⟨T, rfl⟩ := hsame
+    obtain ⟨T2, hT2⟩ := preOne_same gs1 a
     have hsa : a.sym = .named x := hs
     have hta : a.isTentative = true := ht
     have hda : a.isDefinition = true := hdef
-    have hreal : gs1.any (realDefOf (.named x)) = false := (scanPure_kept_tent hkept hsa hda).mp hta
-    have hno : objHasInit (objDecls ds x) = false := by rw [← realDef_iff p ok]; exact hreal
-    have ha1 : a ∈ gs1 := scanPure_sub gs1 gs1 a hkept
-    obtain ⟨d, hd, he, hin, _, hst, htl, _, _, hhi⟩ := tent_decl (x := x) p ha1 (by simp [isTentOf, hta, hsa])
+    have hreal : (preScan gs1).any (realDefOf (.named x)) = false :=
+      (scanPure_kept_tent hkept (by rw [hT2]; exact hsa) (by rw [hT2]; exact hda)).mp (by rw [hT2]; exact hta)
+    have hno : objHasInit (objDecls ds x) = false := by rw [← realDef_iff2 p ok]; exact hreal
+    have ha1 : a ∈ gs1 := by
+      have := ha; rw [← p.data1] at this; exact (mem_dataOf.mp this).1
+    obtain ⟨d, hd, he, hin, _, hst, htl, _, _, hhi, hown⟩ := tent_decl (x := x) p ha1 (by simp [isTentOf, hta, hsa])
     have hD : objDefined (objDecls ds x) = true := by
       unfold objDefined; rw [List.any_eq_true]; exact ⟨d, hd, by simp [he]⟩
-    refine ⟨hD, ?_⟩
+    refine ⟨hD, hown, ?_⟩
     have hgood : GoodTy (tyP (objDecls ds x)) T := by
-      have := scanGlobals_good hreal (chain_of_valid p ok hno) ({ a with ty := T }) (by rw [← p.hgs]; exact ho)
+      have := scanCore_good hreal (chain_of_valid p ok hno) ({ a with ty := T }) (by
+        have := ho; rw [p.hgs] at this; exact this)
         (by simp [isTentOf, hta, hsa])
       exact this
     obtain ⟨hal, hsz⟩ := emitAlign_good ok.valid (fun d hd => ok.align_pos hd)
@@ -343,37 +678,47 @@ theorem data_exists (hD : objDefined (objDecls ds x) = true) :
     have he : d.isExtern = false := by
       rw [hin] at hdd
       simpa using hdd
-    obtain ⟨k, hk⟩ := var_mem_allNews ds 0 (mem_objDecls.mp hd)
+    obtain ⟨k, stc, hk⟩ := var_mem_allNews ds 0 env0 (mem_objDecls.mp hd)
     rw [← p.data1] at hk
-    have hany : gs1.any (isTentOf (.named x)) = true := by
+    have hany1 : gs1.any (isTentOf (.named x)) = true := by
       rw [List.any_eq_true]
       exact ⟨_, (mem_dataOf.mp hk).1, by simp [isTentOf, varObj_isTentative, varObj_sym, hin, he]⟩
-    have hreal : gs1.any (realDefOf (.named x)) = false := by rw [realDef_iff p ok]; exact hI
-    have hs := scanPure_tent_some gs1 (.named x) hreal gs1 hany
-    have hs' : (scanGlobals gs1).any (isTentOf (.named x)) = true := by
-      rw [(scanGlobals_tyRel gs1).any (tyBlind_isTentOf _)]; exact hs
+    have hany : (preScan gs1).any (isTentOf (.named x)) = true := by
+      rw [(preScan_tyRel gs1).any (tyBlind_isTentOf _)]; exact hany1
+    have hreal : (preScan gs1).any (realDefOf (.named x)) = false := by rw [realDef_iff2 p ok]; exact hI
+    have hs := scanPure_tent_some (preScan gs1) (.named x) hreal (preScan gs1) hany
+    have hs' : (scanCore (preScan gs1)).any (isTentOf (.named x)) = true := by
+      rw [(scanCore_tyRel (preScan gs1)).any (tyBlind_isTentOf _)]; exact hs
     rw [List.any_eq_true] at hs'
     obtain ⟨o, ho, hto⟩ := hs'
-    obtain ⟨a, ha, T, rfl⟩ := (scanGlobals_tyRel gs1).mem ho
-    have ha1 : a ∈ gs1 := scanPure_sub gs1 gs1 a ha
-    obtain ⟨_, _, _, _, _, _, _, hfa, hda, _⟩ := tent_decl p ha1 hto
-    exact ⟨{ a with ty := T }, by rw [p.hgs]; exact ho, hfa, hda, isTentOf_sym hto⟩
+    obtain ⟨a2, ha2, T, rfl⟩ := (scanCore_tyRel (preScan gs1)).mem ho
+    obtain ⟨a, ha, rfl⟩ := mem_preScan.mp (scanPure_sub _ _ a2 ha2)
+    obtain ⟨T2, hT2⟩ := preOne_same gs1 a
+    have hta : isTentOf (.named x) a = true := by rw [hT2] at hto; exact hto
+    obtain ⟨_, _, _, _, _, _, _, hfa, hda, _⟩ := tent_decl p ha hta
+    refine ⟨_, by rw [p.hgs]; exact ho, ?_, ?_, isTentOf_sym hto⟩
+    · rw [hT2]; exact hfa
+    · rw [hT2]; exact hda
   · unfold objHasInit at hI
     rw [List.any_eq_true] at hI
     obtain ⟨d, hd, hi⟩ := hI
-    obtain ⟨k, hk⟩ := var_mem_allNews ds 0 (mem_objDecls.mp hd)
-    have hnt : (varObj k x d.isStatic d.isExtern d.isTls d.ty d.init).isTentative = false := by
+    obtain ⟨k, stc, hk⟩ := var_mem_allNews ds 0 env0 (mem_objDecls.mp hd)
+    have hnt : (varObj k x stc d.isExtern d.isTls d.ty d.init).isTentative = false := by
       rw [varObj_isTentative]; cases hdi : d.init <;> simp_all
-    refine ⟨_, p.mem_of_data_nt hk hnt, varObj_isFunction _ _ _ _ _ _ _, ?_, varObj_sym _ _ _ _ _ _ _⟩
-    rw [varObj_isDefinition, hi]; rfl
+    obtain ⟨T2, hT2⟩ := preOne_same gs1 (varObj k x stc d.isExtern d.isTls d.ty d.init)
+    refine ⟨_, p.mem_of_data_nt hk hnt, ?_, ?_, ?_⟩
+    · rw [hT2]; exact varObj_isFunction _ _ _ _ _ _ _
+    · rw [hT2]; show (varObj k x stc d.isExtern d.isTls d.ty d.init).isDefinition = true
+      rw [varObj_isDefinition, hi]; rfl
+    · rw [hT2]; exact varObj_sym _ _ _ _ _ _ _
 
 omit ok in
 /-- a data object named `x` comes from a declaration of `x` -/
 theorem data_named_src {o : Obj} (ho : o ∈ gs) (hf : o.isFunction = false) (hs : o.sym = .named x) :
     (∃ d, d ∈ objDecls ds x) ∨ x ∈ blockExternNames ds := by
-  obtain ⟨a, ha, _, T, rfl⟩ := p.data_of_mem ho hf
-  rcases (allNews_kind ds 0 a ha).named hs with ⟨s, e, t, ty, init, k, hd, _⟩ | ⟨f, n, s, e, i, b, tls, ty, hd, hb, _⟩
-  · exact Or.inl ⟨⟨s, e, t, ty, init⟩, mem_objDecls.mpr hd⟩
+  obtain ⟨a, ha, _, _, T, rfl⟩ := p.data_of_mem ho hf
+  rcases (allNews_kind ds 0 a ha).named hs with ⟨s, e, t, ty, init, k, pre, post, hdd, _⟩ | ⟨f, n, s, e, i, b, tls, ty, stc, hd, hb, _⟩
+  · exact Or.inl ⟨⟨s, e, t, ty, init⟩, mem_objDecls.mpr (mem_of_split hdd)⟩
   · exact Or.inr (mem_blockExternNames.mpr ⟨f, n, s, e, i, b, tls, ty, hd, hb⟩)
 
 end
